@@ -11,6 +11,13 @@ TRUST = (
     "callables bound by name (frozen table). The check decides the structural clauses listed, not the numbers: "
 )
 
+SHARED = (
+    " Shared rules run first in every check over the modules the property is anchored in (and, for state they own, over the "
+    "rest of the package): M - no result is kept in persistent state under a key that omits a parameter it depends on; "
+    "V - no in-place write through a view of caller-owned data or of an object's stored arrays (view-taint analysis); "
+    "G - no one-shot iterator is consumed twice (typestate)."
+)
+
 META = {
     "C01": dict(
         level="other",
@@ -44,21 +51,21 @@ META = {
     ),
     "C06": dict(
         level="other",
-        technique="exact term identity between the coded EOS residual and the published DAK equation (normal form over Q, per power of rho) + must-validate rule on the solver call",
-        text="Decides: the residual handed to the root finder is the published eleven-constant Dranchuk-Abou-Kassem equation; returned Z == 0.27 pr/(rho Tr) of the solver's rho; the bracket straddles Z = 1; the solver is a bracketing root finder (root-or-exception) or its outcome is validated before use.",
-        note="root-ness over the (Tr, pr) rectangle, continuity, the limit Z->1 and Hall-Yarbrough agreement are numerical and not decided. Known finding: the rho^1 coefficient is coded A1*A2/Tr instead of A1 + A2/Tr (pinned by 16 tests).",
+        technique="exact term identity between the coded EOS residual and the published DAK equation (normal form over Q, per power of rho) + must-validate rule on the solver call + sign decisions on normal forms by interval abstract interpretation with branch and bound over the declared (Tr, rho) range",
+        text="Decides: the residual handed to the root finder is the published eleven-constant Dranchuk-Abou-Kassem equation; returned Z == 0.27 pr/(rho Tr) of the solver's rho; the bracket straddles Z = 1; the solver is a bracketing root finder (root-or-exception) or its outcome is validated before use; along the solved equation Z(rho=0) == 1 and d(rho Z)/d rho > 0 for Tr in [1.05, 3] and reduced density up to 3 (which reaches pr > 30), so the root is unique, continuous in pressure and tends to 1 as p -> 0; the Hall-Yarbrough loop iterates the published equation with its exact derivative, cannot return its starting guess and leaves on a NaN residual.",
+        note="Hall-Yarbrough termination in general and its agreement within a few percent are not decided. Known finding: the rho^1 coefficient is coded A1*A2/Tr instead of A1 + A2/Tr (pinned by 16 tests).",
     ),
     "C07": dict(
         level="other",
-        technique="exact term identities between sibling functions sharing uninterpreted atoms (Z, Bo, Rs, Bw); symbolic differentiation of the library's own EOS",
-        text="Decides for every state point: gas rho*Bg free of p and Z and rho = p*M/(Z*R*T); oil rho*Bo == 62.37 gamma_o + 0.0136 gamma_g Rs with the library's own Bo, Rs at the function's own arguments; water rho*Bw depends on salinity only; gas compressibility assembly == 1/(p (1 + (rho/Z) dZ/drho)) and its dZ/drho == rho-derivative of the equation solved in z_factor_DAK; viscosity uses the library's density at its own arguments.",
-        note="positivity and pressure-monotonicity of viscosity need numeric range evaluation: not decided. Known finding: dZ/drho in compressibility_DAK uses the published A1 + A2/Tr, z_factor_DAK does not.",
+        technique="exact term identities between sibling functions sharing uninterpreted atoms (Z, Bo, Rs, Bw); symbolic differentiation of the library's own EOS; sign decisions on normal forms by interval abstract interpretation with branch and bound over a declared input range",
+        text="Decides for every state point: gas rho*Bg free of p and Z and rho = p*M/(Z*R*T); oil rho*Bo == 62.37 gamma_o + 0.0136 gamma_g Rs with the library's own Bo, Rs at the function's own arguments; water rho*Bw depends on salinity only; gas compressibility assembly == 1/(p (1 + (rho/Z) dZ/drho)) and its dZ/drho == rho-derivative of the equation solved in z_factor_DAK; viscosity uses the library's density at its own arguments, is positive and increases with density over the declared range, and density increases with pressure on every isotherm (d(rho Z)/d rho > 0); the Fluid facade hands these quantities out unchanged.",
+        note="the declared input range of the sign clauses is recorded in the evidence. Known finding: dZ/drho in compressibility_DAK uses the published A1 + A2/Tr, z_factor_DAK does not.",
     ),
     "C08": dict(
         level="other",
         technique="exact term identity of the three integrands + argument-role binding at quad / cumulative_trapezoid call sites (resolved signatures)",
-        text="Decides that the adaptive-quadrature route, the table builder and the stand-alone transform integrate the same integrand 2p/(mu Z) with mu and Z evaluated at the integration variable / the row's own pressure, with (y, x) roles, lower limit = reference pressure and initial = 0 bound correctly.",
-        note="quadrature accuracy (QUADPACK vs 10-psi trapezoid) is not decided; monotonicity and additivity follow from a positive integrand",
+        text="Decides that the adaptive-quadrature route, the table builder and the stand-alone transform integrate the same integrand 2p/(mu Z) with mu and Z evaluated at the integration variable / the row's own pressure, with (y, x) roles, lower limit = reference pressure and initial = 0 bound correctly; viscosity > 0 and Z > 0 over the declared range of the gas correlations, so the integrand is positive and pseudopressure strictly increasing.",
+        note="quadrature accuracy (QUADPACK vs 10-psi trapezoid) is not decided; additivity follows from the integral form",
     ),
     "C09": dict(
         level="other",
@@ -81,8 +88,8 @@ META = {
     "C12": dict(
         level="other",
         technique="exact term identities after substitution at the branch point (normal form over Q with symbolic exponents) + predicate agreement rule + sign domain for derivatives",
-        text="Decides: Rs below the bubble point is the exact inverse of the bubble-point correlation (both compositions); Rs, Bo, oil density and viscosity arms coincide at p = p_b; every bubble-point test (scalar and mask form) compares pressure with the same p_b call using >= for the undersaturated side; dRs/dp and dBo/dRs are sign-definite positive; result buffers keep float dtype.",
-        note="Bo falling above p_b, viscosity trend below p_b and positivity of Spivey c_o / viscosity need numeric range evaluation: not decided",
+        text="Decides: Rs below the bubble point is the exact inverse of the bubble-point correlation (both compositions); Rs, Bo, oil density and viscosity arms coincide at p = p_b; every bubble-point test (scalar and mask form) compares pressure with the same p_b call using >= for the undersaturated side; dRs/dp and dBo/dRs are sign-definite positive; above p_b, Bo/Bo_b == exp(x) with x < 0 for a positive compressibility; below p_b d(viscosity)/d(Rs) < 0 and viscosity > 0 over the declared (API, T, Rs) range; the undersaturated viscosity is positive; result buffers keep float dtype; the Fluid facade hands the correlations out unchanged.",
+        note="positivity of the Spivey compressibility itself and the strict fall of Bo above p_b are not decided",
     ),
     "C13": dict(
         level="proof",
@@ -151,7 +158,7 @@ def main():
                     "evidence_file": f"/verif/evidence/{pid}.json",
                     "replay_cmd_template": "/venv/bin/python -m bbstatic replay {path}",
                     "engine": "bbstatic",
-                    "level_claimed": {"category": m["level"], "text": m["text"], "design_ref": f"DESIGN.md section 4, {pid}"},
+                    "level_claimed": {"category": m["level"], "text": m["text"] + SHARED, "design_ref": f"DESIGN.md section 4 and 9.2, {pid}"},
                     "level_note": TRUST + m["note"],
                     "technique": "static analysis: " + m["technique"],
                 }
@@ -173,7 +180,7 @@ def main():
                 "name": "bbstatic",
                 "path": "/verif/bbstatic",
                 "serves_properties": [c["property_id"] for c in checks],
-                "kind_free_text": "repository-specific static analyser: program model (imports, MRO, resolved callees), exact normal form over Q, term-domain abstract interpreter with trace partitioning, vector slice algebra, effect/typestate and dtype analyses, rule modules per property",
+                "kind_free_text": "repository-specific static analyser: program model (imports, MRO, resolved callees), exact normal form over Q, term-domain abstract interpreter with trace partitioning, vector slice algebra, effect/typestate/view-alias and dtype analyses, interval sign decisions with branch and bound, rule modules per property",
             }
         ],
         "checks": checks,
